@@ -70,11 +70,11 @@ Theorem C10_gateway_family : forall s ep caller origin sender owners task biz,
   String.eqb caller (st_gateway s) = true.
 Proof. exact gateway_guard. Qed.
 
-Theorem C10_price_family : forall c s p subj f n a gw biz,
-  snd (tx_dispatch c s M_oracle_CreatePrice p subj f n a gw biz) = Accepted ->
+Theorem C10_price_family : forall c s p subj stg f n a gw biz,
+  snd (tx_dispatch c s M_oracle_CreatePrice p subj stg f n a gw biz) = Accepted ->
   signed_by a p = true /\ ta_infos a = [Some p] /\ ta_raw_sigs a = 1%nat /\ is_validator p (st_nonces s) = true.
 Proof.
-  intros c s p subj f n a gw biz H. unfold tx_dispatch in H. simpl in H.
+  intros c s p subj stg f n a gw biz H. unfold tx_dispatch in H. simpl in H.
   destruct (oracle_sig_ok p a) eqn:A; simpl in H; [|discriminate].
   destruct (check_and_increase_nonce p f n (st_nonces s)) eqn:Nn; simpl in H; [|discriminate].
   destruct (oracle_sig_ok_signed _ _ A) as [S1 [S2 S3]].
@@ -82,16 +82,53 @@ Proof.
 Qed.
 Print Assumptions C10_price_family.
 
-Theorem C10_params_family : forall c s ep p subj f n a gw biz,
+Theorem C10_params_family : forall c s ep p subj stg f n a gw biz,
   family_of ep = FParams -> cfg_mainnet c = true ->
-  snd (tx_dispatch c s ep p subj f n a gw biz) = Accepted ->
+  snd (tx_dispatch c s ep p subj stg f n a gw biz) = Accepted ->
   String.eqb p (st_authority s) = true /\ signed_by a p = true.
 Proof.
-  intros c s ep p subj f n a gw biz F M H.
-  pose proof (tx_sound _ _ _ _ _ _ _ _ _ _ H) as Au. unfold authorized in Au. rewrite F, M in Au.
+  intros c s ep p subj stg f n a gw biz F M H.
+  pose proof (tx_sound _ _ _ _ _ _ _ _ _ _ _ H) as Au. unfold authorized in Au. rewrite F, M in Au.
   apply andb_prop in Au. tauto.
 Qed.
 Print Assumptions C10_params_family.
+
+(* ---- the four gap entry points, characterised ---- *)
+(* total form of soundness: whatever is accepted was either authorised in the property's sense, or it is one of the
+   four gap entry points AND the binding to the calling contract that the code does enforce holds *)
+Theorem C10_sound_total : forall c s cl,
+  snd (dispatch c s cl) = Accepted ->
+  authorized c s cl = true \/ (known_gap (ep_of cl) = true /\ gap_guarantee s cl = true).
+Proof. exact dispatch_sound_total. Qed.
+Print Assumptions C10_sound_total.
+
+(* and such an accepted gap call changes nothing but what it is about: gateway, every AVS record and owner list, the
+   authority and the oracle nonce table stay as they were; only the effect (ep, operator/challenger named in args[0])
+   is recorded. In particular an opt-in/out is always into/out of the AVS registered at the CALLER's own address. *)
+Theorem C10_gap_effect_is_bound : forall c s cl,
+  known_gap (ep_of cl) = true -> snd (dispatch c s cl) = Accepted ->
+  gap_guarantee s cl = true /\
+  exists ep caller isc origin sender owners task biz,
+    cl = CallEvm ep caller isc origin sender owners task biz /\ fst (dispatch c s cl) = log_effect s ep sender.
+Proof. exact gap_accept_shape. Qed.
+Print Assumptions C10_gap_effect_is_bound.
+
+(* task results: in BOTH stages the operator named in the payload must be the signer, and the signer must really
+   have signed; other stage values never take effect *)
+Theorem C10_task_result_family : forall c s p subj stg f n a gw biz,
+  snd (tx_dispatch c s M_avs_SubmitTaskResult p subj stg f n a gw biz) = Accepted ->
+  signed_by a p = true /\ String.eqb p subj = true /\ (stg = 1%N \/ stg = 2%N).
+Proof.
+  intros c s p subj stg f n a gw biz H. unfold tx_dispatch in H. simpl in H.
+  destruct (std_ante p a) eqn:A; simpl in H; [|discriminate].
+  destruct (String.eqb p subj) eqn:E; simpl in H; [|discriminate].
+  destruct (N.eqb stg 1) eqn:S1; destruct (N.eqb stg 2) eqn:S2; simpl in H; try discriminate;
+    (split; [exact (std_ante_signed _ _ A)|split; [reflexivity|]]).
+  - left. apply N.eqb_eq. exact S1.
+  - left. apply N.eqb_eq. exact S1.
+  - right. apply N.eqb_eq. exact S2.
+Qed.
+Print Assumptions C10_task_result_family.
 
 (* ---- refutations (each witness is replayed on the real code by a tagged directed scenario) ---- *)
 Definition ex_state : state :=
@@ -124,8 +161,8 @@ Theorem C10_unfixed_sigverify_refuted : exists c s cl1 cl2,
   snd (dispatch c s cl1) = RejectedAnte /\ snd (dispatch c s cl2) = RejectedAnte.
 Proof.
   exists (mkCfg true), ex_state,
-    (CallTx M_oracle_CreatePrice "exo1val" "exo1val" 1%N 1%N (mkAuth 1 [Some "exo1val"] None true) "" true),
-    (CallTx M_oracle_CreatePrice "exo1val" "exo1val" 1%N 1%N (mkAuth 1 [] None true) "" true).
+    (CallTx M_oracle_CreatePrice "exo1val" "exo1val" 0%N 1%N 1%N (mkAuth 1 [Some "exo1val"] None true) "" true),
+    (CallTx M_oracle_CreatePrice "exo1val" "exo1val" 0%N 1%N 1%N (mkAuth 1 [] None true) "" true).
   vm_compute. repeat split; reflexivity.
 Qed.
 
@@ -147,39 +184,47 @@ Example ex_avs_update_reject :
 Proof. reflexivity. Qed.
 Example ex_signer_accept :
   snd (dispatch (mkCfg true) ex_state
-         (CallTx M_operator_RegisterOperator "exo1a" "exo1a" 0%N 0%N (mkAuth 1 [Some "exo1a"] (Some "exo1a") true) "" true)) = Accepted.
+         (CallTx M_operator_RegisterOperator "exo1a" "exo1a" 0%N 0%N 0%N (mkAuth 1 [Some "exo1a"] (Some "exo1a") true) "" true)) = Accepted.
 Proof. reflexivity. Qed.
 Example ex_signer_forged :
   dispatch (mkCfg true) ex_state
-         (CallTx M_operator_RegisterOperator "exo1a" "exo1a" 0%N 0%N (mkAuth 1 [Some "exo1a"] None true) "" true) = (ex_state, RejectedAnte).
+         (CallTx M_operator_RegisterOperator "exo1a" "exo1a" 0%N 0%N 0%N (mkAuth 1 [Some "exo1a"] None true) "" true) = (ex_state, RejectedAnte).
+Proof. reflexivity. Qed.
+Example ex_task_result_reveal_accept :
+  snd (dispatch (mkCfg true) ex_state
+         (CallTx M_avs_SubmitTaskResult "exo1a" "exo1a" 2%N 0%N 0%N (mkAuth 1 [Some "exo1a"] (Some "exo1a") true) "" true)) = Accepted.
+Proof. reflexivity. Qed.
+Example ex_task_result_reveal_foreign :
+  dispatch (mkCfg true) ex_state
+         (CallTx M_avs_SubmitTaskResult "exo1a" "exo1victim" 2%N 0%N 0%N (mkAuth 1 [Some "exo1a"] (Some "exo1a") true) "" true) = (ex_state, RejectedMsg).
 Proof. reflexivity. Qed.
 Example ex_price_accept :
   snd (dispatch (mkCfg true) ex_state
-         (CallTx M_oracle_CreatePrice "exo1val" "exo1val" 1%N 1%N (mkAuth 1 [Some "exo1val"] (Some "exo1val") true) "" true)) = Accepted.
+         (CallTx M_oracle_CreatePrice "exo1val" "exo1val" 0%N 1%N 1%N (mkAuth 1 [Some "exo1val"] (Some "exo1val") true) "" true)) = Accepted.
 Proof. reflexivity. Qed.
 Example ex_params_gov_accept :
   snd (dispatch (mkCfg true) ex_state (CallGov M_assets_UpdateParams "0xnewgw" true)) = Accepted.
 Proof. reflexivity. Qed.
 Example ex_params_nongov_mainnet :
   dispatch (mkCfg true) ex_state
-         (CallTx M_assets_UpdateParams "exo1a" "exo1a" 0%N 0%N (mkAuth 1 [Some "exo1a"] (Some "exo1a") true) "0xevil" true) = (ex_state, RejectedMsg).
+         (CallTx M_assets_UpdateParams "exo1a" "exo1a" 0%N 0%N 0%N (mkAuth 1 [Some "exo1a"] (Some "exo1a") true) "0xevil" true) = (ex_state, RejectedMsg).
 Proof. reflexivity. Qed.
 Example ex_params_nongov_testnet :
   snd (dispatch (mkCfg false) ex_state
-         (CallTx M_assets_UpdateParams "exo1a" "exo1a" 0%N 0%N (mkAuth 1 [Some "exo1a"] (Some "exo1a") true) "0xevil" true)) = Accepted.
+         (CallTx M_assets_UpdateParams "exo1a" "exo1a" 0%N 0%N 0%N (mkAuth 1 [Some "exo1a"] (Some "exo1a") true) "0xevil" true)) = Accepted.
 Proof. reflexivity. Qed.
 Example ex_not_gov_history :
   forallb (not_gov (st_authority ex_state))
     [CallEvm P_assets_depositLST "0xgateway" true "exo1x" "" [] "" true;
-     CallTx M_assets_UpdateParams "exo1a" "exo1a" 0%N 0%N (mkAuth 1 [Some "exo1a"] (Some "exo1a") true) "0xevil" true;
-     CallTx M_operator_RegisterOperator "exo1a" "exo1a" 0%N 0%N (mkAuth 1 [Some "exo1a"] (Some "exo1a") true) "" true] = true.
+     CallTx M_assets_UpdateParams "exo1a" "exo1a" 0%N 0%N 0%N (mkAuth 1 [Some "exo1a"] (Some "exo1a") true) "0xevil" true;
+     CallTx M_operator_RegisterOperator "exo1a" "exo1a" 0%N 0%N 0%N (mkAuth 1 [Some "exo1a"] (Some "exo1a") true) "" true] = true.
 Proof. reflexivity. Qed.
 (* the unauthorised hypothesis of C10_reject_no_change_partial is satisfiable for every non-gap entry point *)
 Example ex_every_entry_point_has_unauthorised_caller :
   forallb (fun ep => negb (authorized (mkCfg true) ex_state
                              (if is_precompile ep
                               then CallEvm ep "0xnobody" false "exo1n" "exo1m" [] "" true
-                              else CallTx ep "exo1a" "exo1b" 1%N 1%N (mkAuth 1 [Some "exo1a"] None true) "" true)))
+                              else CallTx ep "exo1a" "exo1b" 1%N 1%N 1%N (mkAuth 1 [Some "exo1a"] None true) "" true)))
           all_entry_points = true.
 Proof. vm_compute. reflexivity. Qed.
 (* the inventory list is complete and names are unambiguous, so the comparison made by check_inv is about the
